@@ -81,3 +81,10 @@ let parse_strace (tbl : (int, z * z) Hashtbl.t) (toks : string list) : sev list 
         SvBatch (zs k, zs s, zs e, rows) :: go r'
     | t :: _ -> failwith ("bad trace token " ^ t) in
   go toks
+
+let string_of_nclause = function
+  | NWrongKey -> "wrong_key" | NUnknownRow -> "unknown_row" | NTwice -> "twice"
+  | NEndNotLatestPlusTimeout -> "end_not_latest_plus_timeout" | NStartNotEarliest -> "start_not_earliest"
+  | NGapNotSplit -> "gap_not_split" | NSplitWithinTimeout -> "split_within_timeout" | NEarlyDelivery -> "early_delivery"
+  | NWatermarkOrigin -> "watermark_origin" | NOnTimeLost -> "on_time_lost" | NLateUpdateShape -> "late_update_shape"
+  | NFarFuture -> "far_future"
